@@ -490,9 +490,9 @@ static void run_hist (long idx) {
  * The applies the driver makes while compile_file() is running (log_error for every message, valid_override for efun::,
  * valid_save_binary, error_handler for an error raised in one of them) are LPC code: each of them plain / calling a loaded
  * object / calling an object that has to be compiled first (refused during a compile) / raising an error.
- * hist-len 1: every combination of the four applies x 28 candidates; hist-len >= 2: one apply at a time x all ordered tuples,
+ * hist-len 1: every combination of the four applies x 30 candidates (h00..h24 of part hist, efun:: uses, #pragma save_binary, tokens of 300 bytes pending at an error / at an inherit); hist-len >= 2: one apply at a time x all ordered tuples,
  * each step compared with its outcome in a fresh driver under the same policy. */
-#define NHISTP 28
+#define NHISTP 30
 #define NHOOK 4
 #define NPOL1 13
 static const char *HOOK[NHOOK] = { "log_error", "valid_override", "valid_save_binary", "error_handler" };
